@@ -208,6 +208,17 @@ def audit(pid):
                 forbidden.append(f"{m}:{pat}")
     ptext = strip_comments(open(os.path.join(LEAN, f"Cactus/Props/{pid}.lean")).read())
     names = re.findall(r"^\s*theorem\s+([\w.']+)", ptext, flags=re.M)
+    # the property file must state its theorems itself (no alias whose statement lives in a lemma file) ...
+    if "type_of%" in ptext:
+        forbidden.append(f"Cactus.Props.{pid}:type_of%")
+    # ... and must still contain every property theorem recorded in tools/expected_theorems.json
+    try:
+        expected = json.load(open(os.path.join(VERIF, "tools", "expected_theorems.json"))).get(pid, [])
+    except OSError:
+        expected = []
+    for n in expected:
+        if n not in names:
+            forbidden.append(f"Cactus.Props.{pid}:missing-theorem:{n}")
     src = f"import Cactus.Props.{pid}\nopen Cactus\n" + "\n".join(f"#print axioms {n}" for n in names) + "\n"
     tmp = os.path.join(LEAN, f".audit_{pid}_{os.getpid()}.lean")
     open(tmp, "w").write(src)
